@@ -131,7 +131,8 @@ def f4(run, v, entry, exc):
     if v["kind"] == "commute_unsound":
         d = v["detail"]
         return d.get("existing") == "deduplicate" and str(d.get("new", "")).startswith("Π[") and d.get("why") == "rows differ"
-    if v["kind"] in ("rows_mismatch", "tree_semantics", "bad_payload") and entry is not None:
+    if v["kind"] in ("rows_mismatch", "tree_semantics", "bad_payload", "count_out_of_bounds", "flags_wrong") and entry is not None:
+        # (the row bounds / join-identity flag of the mis-ordered tree are those of "project, then deduplicate")
         return "commute:Projection>Deduplication:full" in entry.events
     return False
 
